@@ -240,12 +240,16 @@ func (db *DB) loadSchema(of Object) (s *Schema, err error) {
 func (db *DB) startAsyncWritesRoutine(s *Schema) {
 	step := time.Millisecond * 100
 	if s.asyncWritesEnabled() && !s.AsyncWrites.routineStarted {
-		s.AsyncWrites.routineStarted = true
+		// the routine works with the settings it is started for, when
+		// those are replaced (Create) it flushes a last time and ends
+		aw := s.AsyncWrites
+		aw.routineStarted = true
 		go func() {
 			for db.ctx.Err() == nil {
 				for slept := time.Duration(0); ; slept += step {
-					n := db.safeCountPendingAsyncW(s.object)
-					if n >= s.AsyncWrites.Threshold || slept >= s.AsyncWrites.Timeout {
+					n, current := db.safeAsyncWritesState(s)
+					replaced := current != aw
+					if replaced || n >= aw.Threshold || slept >= aw.Timeout {
 						// enter critical section
 						db.Lock()
 						// checking db.ctx not to race with db.Close function
@@ -256,6 +260,9 @@ func (db *DB) startAsyncWritesRoutine(s *Schema) {
 						}
 						db.Unlock()
 						// leave critical section
+						if replaced {
+							return
+						}
 						break
 					}
 					time.Sleep(step)
@@ -265,10 +272,12 @@ func (db *DB) startAsyncWritesRoutine(s *Schema) {
 	}
 }
 
-func (db *DB) safeCountPendingAsyncW(of Object) (n int) {
+// safeAsyncWritesState returns the number of pending asynchronous
+// writes and the asynchronous writes settings currently in use
+func (db *DB) safeAsyncWritesState(s *Schema) (n int, aw *Async) {
 	db.RLock()
 	defer db.RUnlock()
-	return db.asyncw.count(of)
+	return db.asyncw.count(s.object), s.AsyncWrites
 }
 
 func (db *DB) schema(of Object) (s *Schema, err error) {
@@ -566,6 +575,12 @@ func (db *DB) Create(o Object, s Schema) (err error) {
 	switch {
 	case err == nil:
 		s.initialize(db, o)
+
+		// settings are about to change: pending writes are flushed first, they
+		// would never reach the disk if asynchronous writes get disabled
+		if err = db.flushAll(o); err != nil {
+			return
+		}
 
 		// the schema is existing and we don't need to build a new one
 		// update existing schema with changes
